@@ -418,12 +418,11 @@ class StandardQTomography(QTomography):
 
         matA = self.calc_matA()
         vecB = self.calc_vecB()
-        size_prob_dist = int(len(matA) / self.num_schedules)
-        prob_dist = (
-            matA[size_prob_dist * j : size_prob_dist * (j + 1)] @ var
-            + vecB[size_prob_dist * j : size_prob_dist * (j + 1)]
-        )
-        grad_prob_dist = matA[size_prob_dist * j : size_prob_dist * (j + 1)]
+        # rows of schedule j (the numbers of outcomes of the schedules may differ)
+        start = sum(self.num_outcomes(i) for i in range(j))
+        stop = start + self.num_outcomes(j)
+        prob_dist = matA[start:stop] @ var + vecB[start:stop]
+        grad_prob_dist = matA[start:stop]
         fisher_matrix = matrix_util.calc_fisher_matrix(prob_dist, grad_prob_dist)
 
         return fisher_matrix
